@@ -288,6 +288,14 @@ def run(rep):
     rep.guarded("R-C15-dispatch", C15.rule_dispatch)
     rep.guarded("R-C15-lanes", lambda r: C15.run_all_kernels(r, "R-C15-lanes"))
     rep.floor("R-C02-cutoff-upper", 2)
+    rep.guarded("R-C10-scratch", lambda r: fftunit.rule_scratch(r, "R-C10-scratch"))
+    rep.floor("R-C10-scratch", 5)
+    rep.clause("R-C10-scratch", "FFT unit: padding half and spectrum tail are cleared over their whole length before each transform (stale content would alias into the output) - shared with C10")
+    import paramflow
+    rep.guarded("R-C02-params-flow", paramflow.run)
+    rep.floor("R-C02-params-flow", 49)
+    rep.clause("R-C02-params-flow", "on every path constructor > make_interpolator > <kernel>::new > make_sincs the tap count comes from the user's sinc_len, the number of sub-filters from "
+                                    "oversampling_factor, the cutoff from f_cutoff and the window from window (tag propagation through positional arguments: a swap of equally typed arguments is reported)")
     rep.floor("R-C02-fft", 4)
     rep.guarded("R-C02-length", rule_length)
     rep.floor("R-C02-length", 3)
